@@ -135,6 +135,10 @@ def sec_exttraparea():
         'if fun(test_value):\n                return binary_search(fun, lower_limit, test_value)\n'
         '            else:\n                return binary_search(fun, test_value, upper_limit)',
         'solution = binary_search(_find_solution, max_duration // 2, max_duration)',
+        'linear_search_end = max_duration',
+        'for duration in range(max(linear_search_end + 1, shortest_conceivable), solution[0] + solution[1] + solution[2]):\n'
+        '            shorter_solution = _find_solution(duration)\n'
+        '            if shorter_solution:\n                solution = shorter_solution\n                break',
         'time_ramp_up = solution[0] * raster_time',
         'flat_time = solution[1] * raster_time',
         'time_ramp_down = solution[2] * raster_time',
@@ -150,6 +154,20 @@ def sec_exttraparea():
     for frag in need2:
         if frag not in osrc:
             raise TranslateError('make_extended_trapezoid_area: expected `%s`' % frag)
+    # rescan lower bound: `shortest_conceivable = int(abs(area) / ((max_grad + tol) * raster_time))`
+    sc = assign_value(fn, 'shortest_conceivable')
+    ok = (isinstance(sc, ast.Call) and unparse(sc.func) == 'int' and len(sc.args) == 1 and isinstance(sc.args[0], ast.BinOp)
+          and isinstance(sc.args[0].op, ast.Div) and unparse(sc.args[0].left) == 'abs(area)')
+    sc_tol = None
+    if ok:
+        den = sc.args[0].right
+        if isinstance(den, ast.BinOp) and isinstance(den.op, ast.Mult) and unparse(den.right) == 'raster_time' \
+                and isinstance(den.left, ast.BinOp) and isinstance(den.left.op, ast.Add) \
+                and unparse(den.left.left) == 'max_grad':
+            sc_tol = const_num(den.left.right)
+    if sc_tol is None:
+        raise TranslateError('`shortest_conceivable = int(abs(area) / ((max_grad + tol) * raster_time))` expected, found `%s`'
+                             % unparse(sc))
     # final area check: `if not abs(grad.area - area) < tol: raise`
     area_tol = None
     for n in ast.walk(fn):
@@ -206,6 +224,7 @@ def sec_exttraparea():
     out += 'Definition eta_slew1_tol : Q := %s.\n' % coq_Q(tol_s1)
     out += 'Definition eta_slew2_tol : Q := %s.\n' % coq_Q(tol_s2)
     out += 'Definition eta_area_tol : Q := %s.\n' % coq_Q(area_tol)
+    out += 'Definition eta_sc_tol : Q := %s.\n' % coq_Q(sc_tol)
     out += 'Definition eta_min_dur : Z := %s.\n' % coq_Z(min_floor)
     out += 'Definition eta_eps : Q := %s.\n' % coq_Q(eps)
     return out
